@@ -42,7 +42,8 @@
       second time).  That was recorded here as `NeedsNotReversed.pureDeletion`, a counterexample; it was a defect of the program
       (fix 3f5edfc: a reversed hunk without old lines is no evidence), and with the fix mirrored in the model the middle alternative
       `h.new.count = 0` is enough — `NeedsNotReversed.pureDeletion` is now an instance of `C03_run_offset`, under every mode.
-    * for the backup: `s0.backedUp = []` and a backup name without slash (as in `C18Run.C18_run`, where the reasons are evaluated).
+    * for the backup: `s0.backedUp = []`, a backup name without slash, and — `hbnd`, new with the model change "a file is not renamed
+      onto a directory" — not that of a directory (as in `C18Run.C18_run`, where the reasons are evaluated).
     * `(X.length : Int) ≠ h.old.start - 1` (offset case) / `f ≠ 0` (fuzz case) — scope: otherwise the placement is perfect, which is
       `C01.C01_run` (no message, never a mismatch backup).  `0 ≤ o.maxFuzz` (offset case only): with a negative `-F` nothing is
       ever found.  The hypothesis `FoundFirstAt` is exactly what makes the locator return `X.length` among the exact copies of the
@@ -159,6 +160,7 @@ theorem C03_run_located_backup_filler (ho : PlaceOpts o name pname)
     (hreal : o.dryRun = false) (hs0 : CleanStart s0) (hbu : s0.backedUp = [])
     (hname : name ≠ []) (hdir : s0.fs.dirExists (parentOf name) = true)
     (hbdirs : DirsThere s0.fs (backupName o name)) (hbdir : s0.fs.dirExists (parentOf (backupName o name)) = true)
+    (hbnd : ∀ m', s0.fs.lookup (backupName o name) ≠ some (.dir m'))
     (hpn : pname ≠ []) (hpd : pname ≠ [45])
     (htarget : s0.fs.lookup name = some (.file bytes m)) (hw : m &&& writeMask ≠ 0)
     (hpatch : s0.fs.lookup pname = some (.file (patchText filler old new oldt newt [h]) pm))
@@ -178,7 +180,7 @@ theorem C03_run_located_backup_filler (ho : PlaceOpts o name pname)
     placeSection_of_diff ho hs0 hname htarget hw hd hc hloc hnp hrloc
   obtain ⟨s', hrun, hfs, _, hbk, _, hhf, hout, hdone⟩ := processSection_placed_backup H hfail
     (hb.imp id fun hy => ⟨hperf, hskip, hy⟩) hreal hdir
-    (by show s0.backedUp.contains _ = false; rw [hbu]; rfl) hbdirs hbdir
+    (by show s0.backedUp.contains _ = false; rw [hbu]; rfl) hbdirs hbdir hbnd
   rw [runPatch_of_end ho.file hs0 hpn hpd hpatch hd s' par2 hrun hdone heof]
   have hnf : s'.hadFailure = false := by rw [hhf]; exact hs0.noFailure
   have hne : name ≠ backupName o name := fun e => backupName_ne o name e.symm
@@ -231,7 +233,8 @@ theorem C03_run_located_backup (o : Options) (s0 : DState) (name pname bytes old
     (p : Nat) (f d : Int)
     (ho : PlaceOpts o name pname) (hb : o.saveBackup = true ∨ o.backupIfMismatch = .yes)
     (hreal : o.dryRun = false) (hs0 : CleanStart s0) (hbu : s0.backedUp = [])
-    (hn : flatName name) (hbn : ∀ c ∈ backupName o name, c ≠ SLASHB) (hpn : pname ≠ []) (hpd : pname ≠ [45])
+    (hn : flatName name) (hbn : ∀ c ∈ backupName o name, c ≠ SLASHB)
+    (hbnd : ∀ m', s0.fs.lookup (backupName o name) ≠ some (.dir m')) (hpn : pname ≠ []) (hpd : pname ≠ [45])
     (htarget : s0.fs.lookup name = some (.file bytes m)) (hw : m &&& writeMask ≠ 0)
     (hot : stampOk oldt) (hnt : stampOk newt)
     (hpatch : s0.fs.lookup pname = some (.file (diffText name name oldt newt [h]) pm))
@@ -248,7 +251,7 @@ theorem C03_run_located_backup (o : Options) (s0 : DState) (name pname bytes old
     (runPatch o s0).2.out = s0.out ++ [.file name false, hunkEvent ((p : Int) + 1) f d] ∧
     (runPatch o s0).2.backedUp = [backupName o name] :=
   C03_run_located_backup_filler (filler := []) ho hb hreal hs0 hbu hn.1 (dirExists_parent_of_noSlash s0.fs hn.2.1)
-    (dirsThere_flat s0.fs hbn) (dirExists_parent_of_noSlash s0.fs hbn) hpn hpd htarget hw hpatch
+    (dirsThere_flat s0.fs hbn) (dirExists_parent_of_noSlash s0.fs hbn) hbnd hpn hpd htarget hw hpatch
     (unifiedDiff_of_flat hn hot hnt hh) hc hloc hnp hrloc
 
 /-! ### the offset case: the text has moved -/
@@ -298,7 +301,7 @@ theorem C03_run_offset (o : Options) (s0 : DState) (name pname bytes oldt newt :
     (hrloc : o.force = true ∨ h.new.count = 0 ∨
       isPerfect (locateHunk (splitLines bytes) (reverseHunk h) o.ignoreWhitespace 0 o.maxFuzz 0) = false) :
     (runPatch o s0).1 = 0 ∧
-    (runPatch o s0).2.fs.lookup name = some (.file (renderLines o.newlineOutput (X ++ newOf h.lines ++ Y)) m) ∧
+    (runPatch o s0).2.fs.lookup name = some (.file (Render.renderText o.newlineOutput (X ++ newOf h.lines ++ Y)) m) ∧
     (∀ q, q ≠ name → (runPatch o s0).2.fs.lookup q = s0.fs.lookup q) ∧
     (runPatch o s0).2.out = s0.out ++
       [.file name false, hunkEvent ((X.length : Int) + 1) 0 ((X.length : Int) - (h.old.start - 1))] := by
@@ -307,7 +310,8 @@ theorem C03_run_offset (o : Options) (s0 : DState) (name pname bytes oldt newt :
   rw [← hlines] at hloc
   have := C03_run_located o s0 name pname bytes oldt newt m pm h X.length 0 _ ho hnb hbim hreal hs0 hn hpn hpd htarget hw
     hot hnt hpatch hh hc hloc (by omega) hrloc
-  rw [render, hlines, spliceAt_one_exact h X Y (Unified.writable_spec h hwr).1] at this
+  rw [hlines, Render.render_eq_renderText_of_map_line _ (Render.noBare_spliceAt _ _ _)
+    (spliceAt_one_exact h X Y (Unified.writable_spec h hwr).1)] at this
   exact ⟨this.1, this.2.1, this.2.2.1, this.2.2.2.1⟩
 
 /-- **C02 / C03 / C18 end to end, the offset case, a backup due** (`-b`, or `--backup-if-mismatch`, the default): in addition the
@@ -316,7 +320,8 @@ theorem C03_run_offset_backup (o : Options) (s0 : DState) (name pname bytes oldt
     (X Y : List Line)
     (ho : PlaceOpts o name pname) (hb : o.saveBackup = true ∨ o.backupIfMismatch = .yes)
     (hreal : o.dryRun = false) (hs0 : CleanStart s0) (hbu : s0.backedUp = [])
-    (hn : flatName name) (hbn : ∀ c ∈ backupName o name, c ≠ SLASHB) (hpn : pname ≠ []) (hpd : pname ≠ [45])
+    (hn : flatName name) (hbn : ∀ c ∈ backupName o name, c ≠ SLASHB)
+    (hbnd : ∀ m', s0.fs.lookup (backupName o name) ≠ some (.dir m')) (hpn : pname ≠ []) (hpd : pname ≠ [45])
     (htarget : s0.fs.lookup name = some (.file bytes m)) (hw : m &&& writeMask ≠ 0)
     (hot : stampOk oldt) (hnt : stampOk newt)
     (hpatch : s0.fs.lookup pname = some (.file (diffText name name oldt newt [h]) pm))
@@ -327,7 +332,7 @@ theorem C03_run_offset_backup (o : Options) (s0 : DState) (name pname bytes oldt
     (hrloc : o.force = true ∨ h.new.count = 0 ∨
       isPerfect (locateHunk (splitLines bytes) (reverseHunk h) o.ignoreWhitespace 0 o.maxFuzz 0) = false) :
     (runPatch o s0).1 = 0 ∧
-    (runPatch o s0).2.fs.lookup name = some (.file (renderLines o.newlineOutput (X ++ newOf h.lines ++ Y)) m) ∧
+    (runPatch o s0).2.fs.lookup name = some (.file (Render.renderText o.newlineOutput (X ++ newOf h.lines ++ Y)) m) ∧
     (runPatch o s0).2.fs.lookup (backupName o name) = some (.file bytes m) ∧
     (∀ q, q ≠ name → q ≠ backupName o name → (runPatch o s0).2.fs.lookup q = s0.fs.lookup q) ∧
     (runPatch o s0).2.out = s0.out ++
@@ -335,9 +340,10 @@ theorem C03_run_offset_backup (o : Options) (s0 : DState) (name pname bytes oldt
   have hwr := hh.writable h (List.mem_singleton.2 rfl)
   have hloc := locate_offset (o := o) (X := X) (Y := Y) hwr hc hmf (by rw [← hlines]; exact hfirst)
   rw [← hlines] at hloc
-  have := C03_run_located_backup o s0 name pname bytes oldt newt m pm h X.length 0 _ ho hb hreal hs0 hbu hn hbn hpn hpd
+  have := C03_run_located_backup o s0 name pname bytes oldt newt m pm h X.length 0 _ ho hb hreal hs0 hbu hn hbn hbnd hpn hpd
     htarget hw hot hnt hpatch hh hc hloc (by omega) hrloc
-  rw [render, hlines, spliceAt_one_exact h X Y (Unified.writable_spec h hwr).1] at this
+  rw [hlines, Render.render_eq_renderText_of_map_line _ (Render.noBare_spliceAt _ _ _)
+    (spliceAt_one_exact h X Y (Unified.writable_spec h hwr).1)] at this
   exact ⟨this.1, this.2.1, this.2.2.1, this.2.2.2.1, this.2.2.2.2.1⟩
 
 /-- **the offset case as `main` runs it by default**: `patch -i pname name` outside POSIX mode (`applyDefaults` turns the unset
@@ -346,7 +352,7 @@ theorem C03_run_offset_orig (o : Options) (s0 : DState) (name pname bytes oldt n
     (X Y : List Line)
     (ho : PlaceOpts o name pname) (hb : o.backupIfMismatch = .yes) (hpre : o.backupPrefix = []) (hsuf : o.backupSuffix = [])
     (hreal : o.dryRun = false) (hs0 : CleanStart s0) (hbu : s0.backedUp = [])
-    (hn : flatName name) (hpn : pname ≠ []) (hpd : pname ≠ [45])
+    (hn : flatName name) (hbnd : ∀ m', s0.fs.lookup (name ++ str ".orig") ≠ some (.dir m')) (hpn : pname ≠ []) (hpd : pname ≠ [45])
     (htarget : s0.fs.lookup name = some (.file bytes m)) (hw : m &&& writeMask ≠ 0)
     (hot : stampOk oldt) (hnt : stampOk newt)
     (hpatch : s0.fs.lookup pname = some (.file (diffText name name oldt newt [h]) pm))
@@ -357,14 +363,14 @@ theorem C03_run_offset_orig (o : Options) (s0 : DState) (name pname bytes oldt n
     (hrloc : o.force = true ∨ h.new.count = 0 ∨
       isPerfect (locateHunk (splitLines bytes) (reverseHunk h) o.ignoreWhitespace 0 o.maxFuzz 0) = false) :
     (runPatch o s0).1 = 0 ∧
-    (runPatch o s0).2.fs.lookup name = some (.file (renderLines o.newlineOutput (X ++ newOf h.lines ++ Y)) m) ∧
+    (runPatch o s0).2.fs.lookup name = some (.file (Render.renderText o.newlineOutput (X ++ newOf h.lines ++ Y)) m) ∧
     (runPatch o s0).2.fs.lookup (name ++ str ".orig") = some (.file bytes m) ∧
     (∀ q, q ≠ name → q ≠ name ++ str ".orig" → (runPatch o s0).2.fs.lookup q = s0.fs.lookup q) ∧
     (runPatch o s0).2.out = s0.out ++
       [.file name false, hunkEvent ((X.length : Int) + 1) 0 ((X.length : Int) - (h.old.start - 1))] := by
   have e : backupName o name = name ++ str ".orig" := (C18.backupName_spec o name).1 hpre hsuf
   have := C03_run_offset_backup o s0 name pname bytes oldt newt m pm h X Y ho (Or.inr hb) hreal hs0 hbu hn
-    (by rw [e]; exact orig_flat hn.2.1) hpn hpd htarget hw hot hnt hpatch hh hc hmf hlines hmoved hfirst hrloc
+    (by rw [e]; exact orig_flat hn.2.1) (by rw [e]; exact hbnd) hpn hpd htarget hw hot hnt hpatch hh hc hmf hlines hmoved hfirst hrloc
   rw [e] at this
   exact this
 
@@ -384,7 +390,7 @@ theorem C03_run_offset_unique (o : Options) (s0 : DState) (name pname bytes oldt
     (hrloc : o.force = true ∨ h.new.count = 0 ∨
       isPerfect (locateHunk (splitLines bytes) (reverseHunk h) o.ignoreWhitespace 0 o.maxFuzz 0) = false) :
     (runPatch o s0).1 = 0 ∧
-    (runPatch o s0).2.fs.lookup name = some (.file (renderLines o.newlineOutput (X ++ newOf h.lines ++ Y)) m) ∧
+    (runPatch o s0).2.fs.lookup name = some (.file (Render.renderText o.newlineOutput (X ++ newOf h.lines ++ Y)) m) ∧
     (∀ q, q ≠ name → (runPatch o s0).2.fs.lookup q = s0.fs.lookup q) ∧
     (runPatch o s0).2.out = s0.out ++
       [.file name false, hunkEvent ((X.length : Int) + 1) 0 ((X.length : Int) - (h.old.start - 1))] :=
@@ -426,7 +432,8 @@ theorem C03_run_fuzz (o : Options) (s0 : DState) (name pname bytes oldt newt : B
 theorem C03_run_fuzz_backup (o : Options) (s0 : DState) (name pname bytes oldt newt : Bytes) (m pm : Nat) (h : Hunk) (g f : Nat)
     (ho : PlaceOpts o name pname) (hb : o.saveBackup = true ∨ o.backupIfMismatch = .yes)
     (hreal : o.dryRun = false) (hs0 : CleanStart s0) (hbu : s0.backedUp = [])
-    (hn : flatName name) (hbn : ∀ c ∈ backupName o name, c ≠ SLASHB) (hpn : pname ≠ []) (hpd : pname ≠ [45])
+    (hn : flatName name) (hbn : ∀ c ∈ backupName o name, c ≠ SLASHB)
+    (hbnd : ∀ m', s0.fs.lookup (backupName o name) ≠ some (.dir m')) (hpn : pname ≠ []) (hpd : pname ≠ [45])
     (htarget : s0.fs.lookup name = some (.file bytes m)) (hw : m &&& writeMask ≠ 0)
     (hot : stampOk oldt) (hnt : stampOk newt)
     (hpatch : s0.fs.lookup pname = some (.file (diffText name name oldt newt [h]) pm))
@@ -444,7 +451,7 @@ theorem C03_run_fuzz_backup (o : Options) (s0 : DState) (name pname bytes oldt n
     (runPatch o s0).2.out = s0.out ++ [.file name false, hunkEvent h.old.start f 0] := by
   obtain ⟨hops, h2, h3, _⟩ := Unified.writable_spec h (hh.writable h (List.mem_singleton.2 rfl))
   have hloc := locateHunk_fuzz_at_stated (splitLines bytes) h o.ignoreWhitespace o.maxFuzz g f ⟨hops, h2, h3⟩ hc hg hadm hless
-  have := C03_run_located_backup o s0 name pname bytes oldt newt m pm h g f 0 ho hb hreal hs0 hbu hn hbn hpn hpd htarget hw
+  have := C03_run_located_backup o s0 name pname bytes oldt newt m pm h g f 0 ho hb hreal hs0 hbu hn hbn hbnd hpn hpd htarget hw
     hot hnt hpatch hh hc hloc (by omega) hrloc
   have e : (g : Int) + 1 = h.old.start := by omega
   rw [e] at this
@@ -513,7 +520,7 @@ theorem applies :
     ⟨rfl, rfl, rfl, rfl, rfl, rfl⟩ (by decide) (by decide) (by decide) rfl (by decide) (by decide) (by decide) rfl diffHunks
     (by decide) (by decide) lines_eq (by decide) (foundFirstAtB_sound (by decide) (by decide +kernel))
     (Or.inr (Or.inr (by decide +kernel)))
-  have hm : renderLines oNo.newlineOutput (X ++ newOf hk.lines ++ []) = result := by decide
+  have hm : Render.renderText oNo.newlineOutput (X ++ newOf hk.lines ++ []) = result := by decide
   rw [hm] at h
   exact h
 
@@ -525,10 +532,10 @@ theorem applies_orig :
     (∀ q, q ≠ name → q ≠ orig → (runPatch oDef s0).2.fs.lookup q = s0.fs.lookup q) ∧
     (runPatch oDef s0).2.out = [.file name false, .msg (.hunk 1 "succeeded" 3 0 2)] := by
   have h := C03_run_offset_orig oDef s0 name pname bytes oldt newt 0o644 0o644 hk X [] placeOptsDef rfl rfl rfl rfl
-    ⟨rfl, rfl, rfl, rfl, rfl, rfl⟩ rfl (by decide) (by decide) (by decide) rfl (by decide) (by decide) (by decide) rfl diffHunks
+    ⟨rfl, rfl, rfl, rfl, rfl, rfl⟩ rfl (by decide) (by rw [str_orig]; exact notDir_of_none (by decide)) (by decide) (by decide) rfl (by decide) (by decide) (by decide) rfl diffHunks
     (by decide) (by decide) lines_eq (by decide) (foundFirstAtB_sound (by decide) (by decide +kernel))
     (Or.inr (Or.inr (by decide +kernel)))
-  have hm : renderLines oDef.newlineOutput (X ++ newOf hk.lines ++ []) = result := by decide
+  have hm : Render.renderText oDef.newlineOutput (X ++ newOf hk.lines ++ []) = result := by decide
   have e : name ++ str ".orig" = orig := by rw [str_orig]; rfl
   rw [hm, e] at h
   exact h
@@ -604,7 +611,7 @@ theorem applies_up :
     { nonEmpty := by decide, writable := by decide, change := by decide }
     (by decide) (by decide) (by decide) (by decide) (foundFirstAtB_sound (by decide) (by decide +kernel))
     (Or.inr (Or.inr (by decide +kernel)))
-  have hm : renderLines oNo.newlineOutput ([] ++ newOf hk3.lines ++ []) = [97, 10, 66, 10, 99, 10] := by decide
+  have hm : Render.renderText oNo.newlineOutput ([] ++ newOf hk3.lines ++ []) = [97, 10, 66, 10, 99, 10] := by decide
   rw [hm] at h
   exact ⟨h.1, h.2.1, h.2.2.2⟩
 #guard (runPatch oNo s0up).1 == 0 && (runPatch oNo s0up).2.fs.lookup name == some (.file (str "a\nB\nc\n") 0o644)
@@ -626,7 +633,7 @@ theorem applies_forward_first :
     { nonEmpty := by decide, writable := by decide, change := by decide }
     (by decide) (by decide) (by decide) (by decide) (foundFirstAtB_sound (by decide) (by decide +kernel))
     (Or.inr (Or.inr (by decide +kernel)))
-  have hm : renderLines oNo.newlineOutput (X4 ++ newOf hk3.lines ++ []) =
+  have hm : Render.renderText oNo.newlineOutput (X4 ++ newOf hk3.lines ++ []) =
       [97, 10, 98, 10, 99, 10, 113, 10, 97, 10, 66, 10, 99, 10] := by decide
   rw [hm] at h
   exact ⟨h.1, h.2.1, h.2.2.2⟩
@@ -672,7 +679,9 @@ theorem applies_backup :
     (runPatch oDef s0).2.fs.lookup orig = some (.file zbc 0o644) ∧
     (runPatch oDef s0).2.out = [.file name false, .msg (.hunk 1 "succeeded" 1 1 0)] := by
   have h := C03_run_fuzz_backup oDef s0 name pname zbc oldt newt 0o644 0o644 hk 0 1 placeOptsDef (Or.inr rfl) rfl
-    ⟨rfl, rfl, rfl, rfl, rfl, rfl⟩ rfl (by decide) (orig_flat (by decide)) (by decide) (by decide) rfl (by decide) (by decide)
+    ⟨rfl, rfl, rfl, rfl, rfl, rfl⟩ rfl (by decide) (orig_flat (by decide))
+    (by rw [(C18.backupName_spec oDef name).1 rfl rfl, str_orig]; exact notDir_of_none (by decide))
+    (by decide) (by decide) rfl (by decide) (by decide)
     (by decide) rfl diffHunks
     (by decide) (by decide) (by decide) (by decide +kernel) (noLessFuzzB_sound (by decide +kernel))
     (Or.inr (Or.inr (by decide +kernel)))
@@ -775,8 +784,8 @@ theorem pureDeletion (t f n : Bool) (tty : Option (List Bytes)) :
     (placeOptsMode t f n) rfl (by show OptionalBool.no ≠ OptionalBool.yes; decide) rfl
     ⟨rfl, rfl, rfl, rfl, rfl, rfl⟩ (by decide) (by decide) (by decide) rfl (by decide) (by decide) (by decide) rfl del_diffHunks
     (by decide) (by show (0 : Int) ≤ 2; decide) del_lines (by decide) del_first (Or.inr (Or.inl rfl))
-  have hm : renderLines (oMode t f n).newlineOutput (Xdel ++ newOf del.lines ++ Ydel) = abcxf := by
-    show renderLines oNo.newlineOutput (Xdel ++ newOf del.lines ++ Ydel) = abcxf
+  have hm : Render.renderText (oMode t f n).newlineOutput (Xdel ++ newOf del.lines ++ Ydel) = abcxf := by
+    show Render.renderText oNo.newlineOutput (Xdel ++ newOf del.lines ++ Ydel) = abcxf
     decide
   rw [hm] at h
   exact h
